@@ -362,6 +362,11 @@ class World:
             self.dir = cfg.get("persist_dir") or _fresh_dir()
             if self.persistence:
                 self.pfile = os.path.join(self.dir, f"p.{self.persistence}")
+                if cfg.get("relpath"):
+                    # the persistence file named without a directory part (like the default 'mysensors.pickle'):
+                    # the process's working directory is the scratch directory while this world is stepped
+                    self.pfile = f"p.{self.persistence}"
+                    os.chdir(self.dir)
         self._make_gateway(first=True)
 
     def verif_state(self):
@@ -503,6 +508,8 @@ class World:
         """Execute one event on the real code; return Obs."""
         global CURRENT
         CURRENT = self
+        if self.cfg.get("relpath") and self.dir:
+            os.chdir(self.dir)
         obs = Obs()
         self._obs = obs
         self.wire = obs.wire
@@ -751,6 +758,8 @@ class World:
 
     def close(self):
         global CURRENT
+        if self.cfg.get("relpath"):
+            os.chdir("/")
         if self.dir and not self.cfg.get("persist_dir"):
             shutil.rmtree(self.dir, ignore_errors=True)
         self.dir = None
